@@ -302,7 +302,14 @@ def tr_richcmp(fn, cls):
     _expect(len(params) == 3 and params[0] == 'self', '%s.__richcmp__ signature' % cls)
     o, op = params[1], params[2]
     guard = ast.parse('if not isinstance(%s, %s):\n    return NotImplemented' % (o, cls)).body[0]
-    _expect(len(stmts) == 3 and _d(stmts[0]) == _d(guard), '%s.__richcmp__: isinstance guard on the own class expected' % cls)
+    _expect(len(stmts) in (3, 4) and _d(stmts[0]) == _d(guard), '%s.__richcmp__: isinstance guard on the own class expected' % cls)
+    strict = False
+    if len(stmts) == 4:
+        # optional exact-type guard (notes/fixes/C19-1.diff): objects of different exact types are never equal
+        kind_guard = ast.parse('if type(self) is not type(%s) and (%s == 2 or %s == 3):\n    return %s == 3' % (o, op, op, op)).body[0]
+        _expect(cls == 'Element' and _d(stmts[1]) == _d(kind_guard), '%s.__richcmp__: unexpected statement before the comparison' % cls, stmts[1])
+        strict = True
+        stmts = [stmts[0]] + stmts[2:]
     st = stmts[1]
     _expect(isinstance(st, ast.Assign) and isinstance(st.targets[0], ast.Name) and _d(st.value) == _d(ast.Name(o, ast.Load())),
             '%s.__richcmp__: `x = <%s> other` expected' % (cls, cls), st)
@@ -321,7 +328,7 @@ def tr_richcmp(fn, cls):
     ne = _chain(ret(br.orelse[0].body), ast.Or, ast.NotEq, other, cls)
     rest = br.orelse[0].orelse
     _expect(_d(ret(rest)) == _d(ast.Name('NotImplemented', ast.Load())), '%s.__richcmp__: other operators must return NotImplemented' % cls)
-    return eq, ne
+    return eq, ne, strict
 
 
 def tr_hash(fn, cls):
@@ -557,9 +564,9 @@ def translate(elements_pyx=ELEMENTS_PYX, line_pyx=LINE_PYX):
     ikeys = tr_builder(mod['funcs']['_build_isotope_index'], '_build_isotope_index', 'Isotope', '_isotope_index')
     cmp = {}
     for cls, table, ftab in (('Element', mod['classes'], EF), ('Isotope', mod['classes'], IF), ('Line', lclasses, LF)):
-        eq, ne = tr_richcmp(table[cls]['__richcmp__'], cls)
+        eq, ne, strict = tr_richcmp(table[cls]['__richcmp__'], cls)
         hs = tr_hash(table[cls]['__hash__'], cls)
-        cmp[cls] = dict(eq=eq, ne=ne, hash=hs)
+        cmp[cls] = dict(eq=eq, ne=ne, hash=hs, strict=strict)
 
     objs = mod['objects']
     used = {}
@@ -596,6 +603,7 @@ def translate(elements_pyx=ELEMENTS_PYX, line_pyx=LINE_PYX):
     for cls, pre, tab in (('Element', 'el', EF), ('Isotope', 'iso', IF), ('Line', 'line', LF)):
         for k, suf in (('eq', 'Eq'), ('ne', 'Ne'), ('hash', 'Hash')):
             L.append('  %s%s := %s' % (pre, suf, _fields(cmp[cls][k], tab, '%s %s' % (cls, k))))
+    L.append('  strictKind := %s' % ('true' if cmp['Element']['strict'] else 'false'))
     L.append('')
     L.append('/-! objects, in source order -/')
     for o in objs:
